@@ -81,6 +81,17 @@ def instantiate(v, choices, picks, g, ctx=None, types=None):
                 return b.call(b.var('o_' + v.name), [])
             return b.var('o_' + v.name)
         if v.ty == 'Statement':
+            kind = None
+            if types is not None and ('kind:' + v.name) in choices:
+                kind = types.enums['Statement'][choices['kind:' + v.name]][0]
+            if kind == 'Args':
+                return b.args_stmt([('value', b.var('o_' + v.name))])
+            if kind == 'Block':
+                return b.block([b.expr_stmt(b.var('o_' + v.name))])
+            if kind == 'Return':
+                return b.ret(b.var('o_' + v.name))
+            if kind == 'If':
+                return b.if_(b.var('o_' + v.name), b.block([]))
             if ctx == 'simple':
                 return b.expr_stmt(b.var('o_' + v.name))
             if getattr(g, 'rich', False):
@@ -132,7 +143,11 @@ def wrap_in_file(g, ty, node):
     if ty == 'ContractPart':
         return b.source_unit([b.supart(b.contract('Contract', 'C', [node]))])
     if ty == 'Expression':
-        node = b.expr_stmt(node)
+        inner_stmt = node.fields[2].inner if node.variant == 'FunctionCallBlock' else None
+        if inner_stmt is not None and getattr(inner_stmt, 'variant', None) == 'Block':
+            node = b.try_(node, None, [b.catch_simple(None, b.block([]))])     # `try f() { .. } catch {}`
+        else:
+            node = b.expr_stmt(node)
     fn = b.function('Function', 'f', [], [b.fattr('visibility', 'public')], b.block([node]))
     return b.source_unit([b.supart(b.contract('Contract', 'C', [b.cpart(fn)]))])
 
@@ -255,6 +270,7 @@ def variant_job(chk, job, ctx):
     e.stubs['HashSet::<Target>::contains::<Target>'] = stub_contains
     e.stubs['walk_node_for_targets'] = stub_walk
     install_symbolic_set(e, tvars)
+    e.flags['opaque_kinds'] = True
     g = ptgen.Gen(types, L=L, tag='w')
     # lists inside a node's own lists are bounded by 1, except in function definitions: there the attribute list is itself inside the
     # boxed definition, and the walker has per-attribute code (two modifier / base invocations with arguments must both be walked)
